@@ -170,6 +170,7 @@ pub fn gen_script(rng: &mut Rng, flags: RrFlags) -> RrScript {
     let mut ended_rep = vec![false; n_rep];
     let mut gate = gates.clone();
     let mut budget = if flags.large { rng.usize(20, 100) } else { rng.usize(0, 30) };
+    let mut burst_done = false;
     // common topology: everything registered up front (replier first or last)
     if rng.chance(3, 5) && !flags.partial {
         let mut regs: Vec<RrStep> = (0..n_req).map(RrStep::RegReq).collect();
@@ -254,6 +255,16 @@ pub fn gen_script(rng: &mut Rng, flags: RrFlags) -> RrScript {
             2 => {
                 let c: Vec<usize> = (0..n_req).filter(|i| !ended_req[*i]).collect();
                 let r = *rng.pick(&c);
+                // now and then one requestor has a long run of requests ready at once, all of
+                // which the replier then answers in one go
+                if !burst_done && rng.chance(1, 80) {
+                    burst_done = true;
+                    steps.push(RrStep::Request { r, n: rng.usize(100, 300), forge: None });
+                    if n_rep > 0 && rng.chance(2, 3) {
+                        steps.push(RrStep::Reply { q: 0, pick: Pick::All });
+                    }
+                    continue;
+                }
                 let n = rng.usize(1, 3).min(budget);
                 budget -= n;
                 let forge = if rng.chance(1, 6) { Some(rng.pick(&["0", "1", "2", "", "abc", "99"]).to_string()) } else { None };
@@ -1291,6 +1302,13 @@ pub fn shrink_script(sc: &RrScript) -> Vec<RrScript> {
                     let mut c = sc.clone();
                     c.steps[i] = RrStep::Request { r: *r, n: 1, forge: forge.clone() };
                     out.push(c);
+                    if *n > 3 {
+                        for m in [*n / 2, *n - 1] {
+                            let mut c = sc.clone();
+                            c.steps[i] = RrStep::Request { r: *r, n: m, forge: forge.clone() };
+                            out.push(c);
+                        }
+                    }
                 }
                 if forge.is_some() {
                     let mut c = sc.clone();
